@@ -93,6 +93,10 @@ func runSolverCtx(parent context.Context, sd solverDef, file string, timeoutS in
 // Stage B: the full query; E-matching only. A sat answer of stage A that
 // stage B cannot refute is reported as a failed obligation with A's model.
 func solveOne(e *Enc, o *Obligation, idx int, opts solveOpts) {
+	if o.Known {
+		// a recorded finding is expected to fail: no long second attempts
+		opts.Retry = false
+	}
 	if o.Raw != "" {
 		file := filepath.Join(opts.WorkDir, fmt.Sprintf("%s_%04d.smt2", sanitize(e.unit), idx))
 		os.WriteFile(file, []byte(o.Raw), 0o644)
